@@ -535,6 +535,8 @@ def fold_const(node, env=None, depth=0):
     if isinstance(node, (ast.Tuple, ast.List)):
         vals = [fold_const(e, env, depth + 1) for e in node.elts]
         return tuple(vals) if isinstance(node, ast.Tuple) else vals
+    if isinstance(node, ast.Set):
+        return frozenset(fold_const(e, env, depth + 1) for e in node.elts)
     if isinstance(node, ast.Dict):
         return {fold_const(k, env, depth + 1): fold_const(v, env, depth + 1)
                 for k, v in zip(node.keys, node.values)}
